@@ -800,8 +800,10 @@ impl Exch {
                 let body_start = body_end - m.body_bytes().len();
                 let at = self.consumed - body_start;
                 let want_boundary = at == 0 || ranges.iter().any(|(data_at, _, len)| data_at + len + 2 == at);
+                // behind the last data chunk (last-chunk line, trailers) no reading of "chunk boundary" is fixed
+                let last_data_end = ranges.iter().map(|(data_at, _, len)| data_at + len + 2).max().unwrap_or(0);
                 let AnyFlow::RecvBody(f) = &self.flow else { unreachable!() };
-                if f.is_on_chunk_boundary() != want_boundary {
+                if at <= last_data_end && f.is_on_chunk_boundary() != want_boundary {
                     return Err((self.k("read", "chunk-boundary-query"), format!("{} coding bytes consumed ({}a chunk boundary) but is_on_chunk_boundary() = {}", at, if want_boundary { "" } else { "not " }, !want_boundary)));
                 }
             }
